@@ -321,7 +321,15 @@ def run(ctx):
     r.notes.append("%d exact states replayed" % n)
     # ---- large tier: traces
     rs = ctx.nprng("cg_traces")
-    traces = [record_run(sp, rs, k) for k in range(400 if ctx.thorough else 120)]
+    traces = []
+    for k in range(400 if ctx.thorough else 120):
+        try:
+            traces.append(record_run(sp, rs, k))
+        except Exception as e:      # a valid Hermitian positive definite system (whatever the dtypes of its parts) must not be rejected
+            import traceback
+
+            r.violations.append(core.Violation(["C12"], "cg", {"kind": "valid_system_raises", "run": k, "error": type(e).__name__},
+                                               "ConjugateGradient raised %r on a valid system (run %d): %s" % (e, k, traceback.format_exc().splitlines()[-3].strip()[:160]), {}))
     slim = [{"id": t["id"], "n": t["n"], "max_iter": t["max_iter"], "exact_tol": t["exact_tol"], "ev": t["ev"]} for t in traces]
     tres, rej = tracecheck.validate("CGTrace", slim, wd, constants=["Slack = 1000", "KryTol = 10000", "ResTol = 1000"], timeout=900)
     r.add_tlc(tres, "CGTrace")
